@@ -151,6 +151,7 @@ E2E_NOTE = " Real-process layer: the unmodified `rdest get` binary (feature off,
 CHECKS["C02"]["engines"] = [{"fn": "e2e", "tiers": ["quick", "thorough"]}, {"fn": "e2e_asan", "tiers": ["thorough"]}]
 CHECKS["C01"]["engines"] = [{"fn": "e2e", "tiers": ["quick", "thorough"]}]
 CHECKS["C19"]["engines"] = [{"fn": "e2e", "tiers": ["quick", "thorough"]}]
+CHECKS["C06"]["engines"] = [{"fn": "e2e", "tiers": ["quick", "thorough"]}, {"fn": "e2e_asan", "tiers": ["thorough"]}]
 for _c in ("C01", "C02", "C19"):
     CHECKS[_c]["rule"] += E2E_NOTE
     CHECKS[_c]["assumptions"] = CHECKS[_c]["assumptions"] + ["real-process layer: `unshare -n` works in the sandbox (otherwise runs are serialised because port 6881 is a constant); real time is only used for watchdogs and for the idle criterion"]
